@@ -27,6 +27,22 @@ def run(rep, tier, seed):
         pc.drive(rep, work, binp, seed + 77, 300, "clean", "verify", 2, big=True, tag="big")
     # the command glue: the real binary end to end, judged by CliOutcome.tla
     cli_common.run(rep, vlib.workdir("C17-cli"), seed, "verify", tier == "thorough")
+    # the verify-index command under SIGINT / SIGTERM on a file that differs in its last byte: never exit 0 (CancelOutcome.tla)
+    b7 = vlib.go_build("c07")
+    tr7 = os.path.join(work, "verifysig.ndjson")
+    p7 = vlib.sh([b7, "-mode", "verifysig", "-seed", str(seed)] + (["-thorough"] if tier == "thorough" else []) + ["-out", tr7, "-dir", os.path.join(work, "c07data"), "-desync", vlib.build_desync(tags="")],
+                 timeout=3000, check=False)
+    if p7.returncode != 0:
+        raise vlib.Infra("driver c07 (verifysig) failed:\n" + p7.stdout[-2000:])
+    ev7 = vlib.read_ndjson(tr7)
+    res7, info7 = vlib.validate_trace("Trace_CancelOutcome", open(os.path.join(vlib.SPEC, "cfg", "Trace_CancelOutcome.cfg")).read(), tr7, work, timeout=1800)
+    rep.add_tlc("Trace_CancelOutcome validation (verify-index under signals)", res7)
+    if info7["kind"] is None:
+        rep.traces += len(ev7)
+    else:
+        ln = info7.get("line")
+        evt = ev7[ln - 1] if ln and ln <= len(ev7) else None
+        rep.violation("desync verify-index: %s | %s" % ((info7.get("bad") or "")[:300], json.dumps(evt)[:400]), {"events": [evt] if evt else [], "info": info7, "trace_spec": "Trace_CancelOutcome"})
     rep.rule = ("case = blob of K chunks (K in 0..44, 0..699 thorough; equal or varied sizes) x n in {1,2,3,4,10,64} (1..64 thorough) x damage in "
                 "{none, one altered byte in a random chunk, two equal-size chunks swapped, truncated, extended} x 2 schedules; "
                 "distinct = different event sequence/instance; non-trivial = K >= 2")
